@@ -190,6 +190,10 @@ def run(ctx) -> None:
     ctx.floor('H6', len(ctx.obligations) - n0, 6, 'price/credit model construction sites')
     n7 = check_sync_guards(ctx, 'H7')
     ctx.floor('H7', n7, 2, 'sync guards')
+    ctx.rule('H8', 'the zero element of add-ons: the add-on economics object discounts with the rate the user stated (the rate sync runs on every '
+                   'Economics-derived object that reads the rate), so an add-on that costs and earns nothing leaves the NPV where it was (shared S4)')
+    from rules.rate_sync import check_rate_sync
+    check_rate_sync(Renamed(ctx, {'K7': 'H8'}, key_filter=lambda k: 'runs-on-every-economics-object' in k), 'K7', only_functions={'sync_interest_rate'})
     ctx.undecided('strict monotonicity of NPV in sale prices (the ending-price cap makes it non-strict)',
                   'homogeneity of correlation-based component costs in the adjustment factors (not homogeneous by design)',
                   'paired-run equalities as runs')
